@@ -379,3 +379,16 @@ SPECS["C20"]["not_covered"] = ["keygroup / program decoding functions as contrac
 SPECS["C02"]["bounded"].append(("contracts.roland_addressing", "finite:roland_addressing"))
 SPECS["C14"]["bounded"].append(("contracts.roland_addressing", "finite:roland_addressing"))
 SPECS["C01"]["contracts"] += [f"smpl_extract.akai.sample:SampleAdapter._decode_element[loops={k}]" for k in (0, 1)]
+
+# ---- session 3 additions
+SPECS["C15"]["contracts"].append("smpl_extract.akai.file_entry:FileEntriesAdapter._parse#cut")
+SPECS["C15"]["level_text"] += (". Added: the AKAI file-table scan over a VIEW of a truncated image lets nothing but a construct error escape "
+                               "(a read failure of the view inside construct surfaces as StreamError and is handled per entry; a raw read outside would abort the export) "
+                               "and stays aligned; cuts inside the 24-byte directory entries are part of the end-to-end sweep")
+SPECS["C15"]["not_covered"] = ["Roland and CDDA truncation sweeps", "volume/partition table truncation handlers as contracts"]
+_CTORS = ["smpl_extract.util.fat:FileStream.__init__", "smpl_extract.akai.sat:Segment.__init__", "smpl_extract.roland.s7xx.fat:RolandFile.__init__",
+          "smpl_extract.alcohol.mdf:MdfStream.__init__", "smpl_extract.util.stream:StreamOffset.__init__", "smpl_extract.util.stream:StreamReversed.__init__"]
+for _pid in ("C08", "C09", "C01", "C02"):
+    SPECS[_pid]["contracts"] += [k for k in _CTORS if k not in SPECS[_pid]["contracts"]]
+SPECS["C09"]["contracts"].append("smpl_extract.alcohol.mdx:MdxStream")
+SPECS["C08"]["level_text"] += ". Added: the constructors establish what the read/seek contracts assume of a view (sector size, length = sectors x size, rewound, arguments kept)"
